@@ -4,6 +4,7 @@ import collections
 
 from vt.world import World
 from vt import monitors as M
+from vt.bus import order_fingerprint
 from ref import codec as C
 from ref import sniffer as SN
 
@@ -196,6 +197,7 @@ def run_case(case):
                            round(g.get('seen', -1), 4)) for g in groups],
                   frames=[f.brief()[:90] for f in W.bus.frames[:6]])
     res = dict(violations=list(viol), inconclusive=None, sig=sig, nontrivial=obs['groups_checked'] >= 2, obs=obs, sample=sample)
+    res['fingerprint'] = order_fingerprint(W.bus.frames)
     if case.get('trace'):
         res['trace'] = [f.brief() for f in W.bus.frames]
     W.close()
